@@ -2,6 +2,7 @@
 // args: <grid spec> <state>   state: 0 fresh (no values) | 1 loaded | 2 loaded + pending refinement | 3 active construction | 4 empty grid
 // Every misuse of the table below is issued in that state; each must raise std::invalid_argument or std::runtime_error and leave
 // every observable (points, value symbols, coefficients, surrogate expressions, limits, transform, flags) exactly as before.
+#include "TasmanianAddons.hpp"
 #include "tgrid.hpp"
 #include <functional>
 #include <sstream>
@@ -164,6 +165,9 @@ int main(int argc, char **argv){
   misuse("getCandidateConstructionPoints(tol, criteria)(output out of range, valid limits)", [&]{ grid.getCandidateConstructionPoints(0.1, refine_classic, OUTS + 1, oklim); }, constructing && local);
   misuse("getCandidateConstructionPoints(tol, criteria)(limits of wrong size)", [&]{ grid.getCandidateConstructionPoints(0.1, refine_classic, 0, badlim); }, constructing && local);
   misuse("beginConstruction(empty grid)", [&]{ grid.beginConstruction(); }, empty);
+  // Addons: the documented throws-clause of the tolerance/criteria overload of constructSurrogate (the grid must not be touched before the throw)
+  misuse("constructSurrogate(tolerance, criteria)(global / sequence / fourier grid)", [&]{ constructSurrogate<mode_sequential>([](std::vector<double> const&, std::vector<double>&, size_t)->void{}, 10, 1, 1, grid, 0.1, refine_classic); }, !empty && !local && !constructing);
+  misuse("constructSurrogate(tolerance, criteria)(global / sequence / fourier grid, parallel mode, checkpoint name)", [&]{ constructSurrogate<mode_parallel>([](std::vector<double> const&, std::vector<double>&, size_t)->void{}, 10, 2, 1, grid, 0.1, refine_fds, -1, std::vector<int>(), "/nonexistent-dir/verif-ck"); }, !empty && !local && !constructing);
   // ---- afterwards the object is fully usable
   bool usable = true;
   try {
